@@ -198,7 +198,7 @@ class Wrapp(util.WrapperMixin):
         for ns in node.namespaces:
             if ns.wrap.python:
                 self.wrap_namespace(ns)
-                self.register_submodule(ns, modinfo)
+                self.register_submodule(ns, modinfo, top)
         if top:
             self._pop_splicer("XXX")  # This name will not match since it is replaced.
             self._pop_splicer("namespace")
@@ -258,25 +258,37 @@ class Wrapp(util.WrapperMixin):
 
         self.write_module(node, modinfo, fileinfo, top)
 
-    def register_submodule(self, ns, modinfo):
+    def register_submodule(self, ns, modinfo, top=True):
         """Create code to add submodule to a module.
 
         Args:
             ns - ast.NamespaceNode
             modinfo - ModuleTuple
+            top - True if added to the top level module,
+                  False if added to a submodule.
         """
         fmt_ns = ns.fmtdict
 
-        self.module_init_decls.append(
-            wformat("PyObject *{PY_prefix}init_{PY_module_init}(void);", fmt_ns))
+        decl = wformat(
+            "PyObject *{PY_prefix}init_{PY_module_init}(void);", fmt_ns)
+        if top:
+            self.module_init_decls.append(decl)
+            decl = ""
+            error = "INITERROR"
+        else:
+            # The file of a submodule has neither the declarations
+            # nor the INITERROR macro of the top level module,
+            # its init function returns the module object.
+            decl = decl + "\n"
+            error = wformat("return {nullptr}", fmt_ns)
 
         output = modinfo.type_object_creation
         output.append(
             wformat("""
 {{+
-PyObject *submodule = {PY_prefix}init_{PY_module_init}();
+""" + decl + """PyObject *submodule = {PY_prefix}init_{PY_module_init}();
 if (submodule == {nullptr})
-+INITERROR;-
++""" + error + """;-
 Py_INCREF(submodule);
 PyModule_AddObject(m, (char *) "{PY_module_name}", submodule);
 -}}""",
